@@ -40,6 +40,7 @@ type c18Scenario struct {
 }
 
 type c18Replay struct {
+	Kind     string            `json:"kind,omitempty"`
 	Sc       c18Scenario       `json:"scenario"`
 	PathHex  string            `json:"path_hex"`
 	PathQ    string            `json:"path_quoted"`
@@ -722,12 +723,18 @@ func runC18(r *Run) {
 		x.run(r, sc, paths, reps, "generated")
 	}
 	r.Extra["scenarios"] = nSc + len(corpus)
+	c18EnvCheck(r)
 }
 
 func replayC18(r *Run, file string) {
 	var in c18Replay
 	loadReplay(file, &in)
 	r.Coq("Require Import Verif.Model.Base Verif.Model.Path Verif.Corr.C18.", "case", "ok")
+	if in.Kind == "env" { // a finding of the process-environment scenarios (c18_env.go): run them again
+		c18EnvCheck(r)
+		finishReplay(r)
+		return
+	}
 	must(os.MkdirAll(c18Root+"/w/sub/deep", 0o755))
 	must(os.MkdirAll(c18Root+"/wx", 0o755))
 	orig, _ := os.Getwd()
